@@ -303,11 +303,25 @@ def run_property(prop, tier, seed, only=None, keep=False, jobs=None, no_replay=F
                 "kani_cmd": r["cmd"], "inputs": h.get("inputs"), "bounds": h.get("bounds")}
             if kf:
                 if kf["_line"] not in reported_known:
-                    out_lines.append("KNOWN-FINDING: property=%s %s %s" % (prop, lab, what))
+                    kwhat = next(("%s: %s at %s" % (hname, c.get("desc", "")[:160], short_loc(c.get("loc"))) for c in failed if label_of(c.get("desc")) == kf.get("label")), what)
+                    out_lines.append("KNOWN-FINDING: property=%s %s %s" % (prop, kf.get("label"), kwhat))
                     reported_known.add(kf["_line"])
                 rec["known_finding"] = kf["_line"]
                 json.dump(rec, open(rp, "w"), indent=1)
-                continue
+                # a listed finding covers its own assertion only: any other failed check of the harness is still a violation
+                if kf.get("label") in ("*", "panic"):
+                    continue
+                failed = [c for c in failed if label_of(c.get("desc")) != kf.get("label")]
+                if not failed:
+                    continue
+                labels = sorted(set(filter(None, [label_of(c.get("desc")) for c in failed])))
+                first = failed[0]
+                lab = labels[0] if labels else "panic"
+                what = "%s: %s at %s" % (hname, first.get("desc", "")[:160], short_loc(first.get("loc")))
+                rp = os.path.join(replay_root, prop, "%s.%s.json" % (hname, lab))
+                rec = {"property": prop, "harness": h["name"], "labels": labels, "failed_checks": [
+                    {"desc": c.get("desc"), "loc": short_loc(c.get("loc")), "check": c.get("name")} for c in failed[:20]],
+                    "kani_cmd": r["cmd"], "inputs": h.get("inputs"), "bounds": h.get("bounds")}
             mode = h.get("replay", "playback")
             pb = None
             if not no_replay and mode in ("playback", "playback-native-env"):
